@@ -28,6 +28,14 @@ def __parse_date(_date: str) -> Optional[datetime]:
     return datetime.strptime(_date, __DATE_FORMAT)
 
 
+def __parse_min_start(_date: str) -> Optional[datetime]:
+    # Files written before min_start became a date column hold str(datetime): '2030-03-04 00:00:00'
+    try:
+        return __parse_date(_date)
+    except ValueError:
+        return datetime.strptime(_date, '%Y-%m-%d %H:%M:%S')
+
+
 def __parse_predecessors(_val: str) -> List[int]:
     if len(_val) == 0:
         return []
@@ -72,7 +80,7 @@ def read_csv(path: str, encoding='utf-8', delimiter=';') -> WBS:
             kwargs = {}
             for k, v in header.items():
                 if k == 'min_start':
-                    kwargs[k] = __parse_date(row[v])
+                    kwargs[k] = __parse_min_start(row[v])
                 elif k not in __DEFAULT_FIELDS:
                     kwargs[k] = row[v]
 
